@@ -338,7 +338,13 @@ func (fr *frame) callClosure(p *Path, e *ast.CallExpr, cv *ClosureVal, what stri
 			}
 		}
 		var rets []*Path
-		sub := &frame{fi: cv.Fi, info: cv.Info, rets: &rets, depth: fr.depth + 1}
+		// a literal called in the function that wrote it is part of that function's body (same depth: its calls keep their
+		// dynamic ordinals for cut points and call-site ghosts)
+		d := fr.depth + 1
+		if cv.Fi == fr.fi {
+			d = fr.depth
+		}
+		sub := &frame{fi: cv.Fi, info: cv.Info, rets: &rets, depth: d}
 		if cv.Lit.Type.Results != nil {
 			var nv []*types.Var
 			for _, fl := range cv.Lit.Type.Results.List {
@@ -2094,4 +2100,28 @@ func exitOnly(info *types.Info, list []ast.Stmt, v *types.Var) bool {
 	}
 	scan(list)
 	return ok
+}
+
+// allocZero: a fresh object of a repository struct type with all fields at their zero values
+func allocZero(p *Path, named *types.Named) (Term, bool) {
+	c := p.C
+	ut, ok := named.Underlying().(*types.Struct)
+	if !ok || named.Obj().Pkg() == nil {
+		return Term{}, false
+	}
+	if _, inRepo := pkgAlias[named.Obj().Pkg().Path()]; !inRepo {
+		return Term{}, false
+	}
+	for j := 0; j < ut.NumFields(); j++ {
+		if c.U.sortOfType(ut.Field(j).Type()) == SOpaque {
+			return Term{}, false
+		}
+	}
+	r := p.alloc(named.Obj().Name())
+	for j := 0; j < ut.NumFields(); j++ {
+		f := ut.Field(j)
+		srt := c.U.sortOfType(f.Type())
+		p.writeField(fieldKey(named, f), srt, r, zeroTerm(srt))
+	}
+	return r, true
 }
